@@ -200,6 +200,8 @@ def run(ctx, job):
         return {"cls": "IAE"}
     except ValueError:
         ctx.expect("ValueError-only-from-a-failing-primitive", mode == "adversarial")
+        # interface problems are detected before any primitive is called
+        ctx.expect("meaningless-request-raises-IAE-not-ValueError", ref is not None, info=f"request={request}")
         return {"cls": "VE"}
     except Exception as e:
         ctx.expect("only-documented-exceptions", False, info=B.classify(e) + "@" + B.innermost_pacti_frame(e))
